@@ -171,6 +171,9 @@ def configs(tier, seed):
                 continue
             out.append({'model': model, 'm': m, 'n': n, 'variant': 'full', 'group': 'kM:%s' % model})
         out.append({'model': model, 'm': 2, 'n': 2, 'variant': 'y1y2', 'group': 'kMy1y2:%s' % model})
+        # four terms along one direction: all four boundary flags (1t, 1r, 2t, 2r) of that direction enter the integrals
+        out.append({'model': model, 'm': 1, 'n': 4, 'variant': 'y1y2', 'group': 'kMy1y2:%s' % model, 's': 1 if model == 'kpanel' else 2})
+        out.append({'model': model, 'm': 4, 'n': 1, 'variant': 'y1y2', 'group': 'kMy1y2:%s' % model, 's': 1 if model == 'kpanel' else 2})
         out.append({'model': model, 'm': 2, 'n': 2, 'variant': 'offset', 'off': 1 + seed % 4, 'group': 'placement:%s' % model})
         out.append({'model': model, 'm': 2, 'n': 2, 'variant': 'tiling', 'group': 'tiling:%s' % model, 's': 1 if model == 'kpanel' else 2})
         out.append({'model': model, 'm': 2, 'n': 2, 'variant': 'fullwidth', 'group': 'fullwidth:%s' % model, 's': 1 if model == 'kpanel' else 2})
